@@ -72,6 +72,16 @@ THEOREMS = [
     "Mpc.Fold.decName_injective",
     "Mpc.Fold.cvName_int_injective",
     "Mpc.Fold.mixedName_collision",
+    # folding leaves its operands alone (Model/MpaHist.lean, Model/FoldUses.lean)
+    "Mpc.C12_mpa_call_writes_receiver_only",
+    "Mpc.C12_mpa_history_operands_unchanged",
+    "Mpc.C12_constant_value_independent_of_uses",
+    "Mpc.C12_in_place_fold_witness",
+    "Mpc.MpaHist.step_cases",
+    "Mpc.MpaHist.step_frame",
+    "Mpc.MpaHist.run_frame",
+    "Mpc.Fold.runUses_pure",
+    "Mpc.Fold.runUses_pure_decls",
 ]
 
 # operator -> mpa method table of Binary.evalConst (T2 fact)
@@ -277,9 +287,49 @@ def multi_runs(ctx, n_multi, n_ident, seed=None, tag=""):
     return fails
 
 
+def purity_runs(ctx, n_hist, n_uses, seed=None, tag=""):
+    """Folding leaves its operands alone: histories of mpa calls sharing their operand objects (every object
+    observed after every call) and programs in which one constant is used by several folds and run-time uses."""
+    seed = ctx.seed if seed is None else seed
+    fails = []
+    ops, out, meta = ctx.run_hx("mpah", n_hist, seed=seed, tag=tag, timeout=2400)
+    ctx.absorb_meta(meta, prefix=tag)
+    ctx.correspond("mpah lines: histories of 1..5 mpa calls sharing operand objects, every receiver / operand aliasing "
+                   "pattern, EVERY object observed after EVERY call (Model/MpaHist.lean step: the receiver's register is "
+                   "written, nothing else)%s" % tag, ops, out)
+    for line in open(ops, errors="replace"):
+        ctx.distinct.add(hashlib.sha1(line.encode()).digest())
+    fails += meta.get("fails_all") or []
+    ctx.oblige("mpa history oracle ran%s" % tag, (meta.get("counters") or {}).get("mpah_steps", 0) > 0, json.dumps(meta)[:500])
+    ops, out, meta = ctx.run_hx("uses", n_uses, seed=seed, tag=tag, timeout=2400)
+    ctx.absorb_meta(meta, prefix=tag)
+    ctx.correspond("uses lines: one constant bound to a name, used by several folds and by run-time uses; outputs of the "
+                   "constant variant at x = 0 (Model/FoldUses.lean usesOutputs cvName pureFold: every fold a function of the "
+                   "declared values)%s" % tag, ops, out)
+    for line in open(ops, errors="replace"):
+        ctx.distinct.add(hashlib.sha1(line.encode()).digest())
+    fails += meta.get("fails_all") or []
+    ctx.oblige("uses oracle ran%s" % tag, (meta.get("counters") or {}).get("uses_cases", 0) > 0, json.dumps(meta)[:500])
+    for f in fails:
+        f.setdefault("cause", "operand-written-by-a-call" if f.get("sig") == "c12-mpa-operand-changed"
+                     else "constant-depends-on-earlier-folds")
+        f.setdefault("model_predicts", "false")
+    return fails
+
+
+def by_class_round_robin(fails):
+    """One failure of every signature first (the replay file keeps the first ten): the call that wrote its operand AND the
+    program whose constant changed."""
+    rank, out = {}, []
+    for f in fails:
+        rank[f.get("sig")] = rank.get(f.get("sig"), 0) + 1
+        out.append((rank[f.get("sig")], len(out), f))
+    return [f for _, _, f in sorted(out, key=lambda t: (t[0], t[1]))]
+
+
 def replay_exact(ctx):
-    """`bin/check C12 --replay F`: when F holds one `multi` program or one `ident` pair, run exactly that case on
-    the real compiler first (the seeded run that produced it follows)."""
+    """`bin/check C12 --replay F`: when F holds one `multi` program, one `ident` pair, one `mpah` history or one
+    `uses` program, run exactly that case on the real code first (the seeded run that produced it follows)."""
     if "--replay" not in sys.argv:
         return
     try:
@@ -288,20 +338,25 @@ def replay_exact(ctx):
         f = json.load(open(rp)).get("failure") or {}
     except Exception:
         return
-    for mode, key, pre in (("multi", "multi_spec", "c12 multi "), ("ident", "ident_spec", "")):
+    for mode, key, pre in (("multi", "multi_spec", "c12 multi "), ("ident", "ident_spec", ""),
+                           ("mpah", "mpah_spec", "c12 mpah "), ("uses", "uses_spec", "c12 uses ")):
         spec = f.get(key)
         if not spec:
             continue
         spec = spec[len(pre):] if pre and spec.startswith(pre) else spec
         ops, out, meta = ctx.run_hx(mode, 1, extra_args=["-extra", spec], tag="-replay", timeout=600)
         got = meta.get("fails_all") or []
-        if mode == "multi":
-            ctx.correspond("replayed multi case vs model", ops, out)
+        if mode in ("multi", "mpah", "uses"):
+            ctx.correspond("replayed %s case vs model" % mode, ops, out)
         attribute_multi(ctx, got, ops)
-        print("replayed exactly: c12 %s -extra \"%s\"\n  -> %s" % (mode, spec, "; ".join(
-            "%s output %s: constant variant %s, run-time %s" % (g.get("sig"), g.get("output", "-"), g.get("const_out", g.get("name")),
-                                                                g.get("rt_out", g.get("detail", ""))) for g in got)
-            or "no failure on this tree"))
+        if mode == "mpah":
+            print("replayed exactly: c12 mpah -extra \"%s\"\n  -> %s" % (spec, "; ".join(
+                "%s: %s" % (g.get("sig"), g.get("detail", "")) for g in got) or "no failure on this tree"))
+        else:
+            print("replayed exactly: c12 %s -extra \"%s\"\n  -> %s" % (mode, spec, "; ".join(
+                "%s output %s: constant variant %s, run-time %s" % (g.get("sig"), g.get("output", "-"), g.get("const_out", g.get("name")),
+                                                                    g.get("rt_out", g.get("detail", ""))) for g in got)
+                or "no failure on this tree"))
         for g in got:
             g["found_by"] = "exact replay of " + os.path.basename(rp)
         ctx.fails.extend(got)
@@ -320,9 +375,20 @@ def run(ctx):
         ctx.absorb_meta(meta)
         facts(ctx, meta)
         ctx.correspond("exported mpa API (New, NewInt, Parse, SetTypeSize, Add..Xor, Lsh, Rsh, Cmp, Int64, BitLen, Bit, "
-                       "Sign, String, Text) vs Model/Mpa.lean", ops, out)
+                       "Sign, String, Text) vs Model/Mpa.lean; receiver AND both operands observed after the call", ops, out)
         for line in open(ops, errors="replace"):
             ctx.distinct.add(hashlib.sha1(line.encode()).digest())
+        pure_fails = []
+        for f in meta.get("fails_all") or []:
+            f.setdefault("cause", "operand-written-by-a-call")
+            f.setdefault("model_predicts", "false")
+            pure_fails.append(f)
+        # folding leaves its operands alone: call histories sharing operand objects; constants used several times
+        pure_fails = purity_runs(ctx, 3000 if quick else 40000, 700 if quick else 8000) + pure_fails
+        if not quick:
+            for i in range(1, 3):
+                pure_fails += purity_runs(ctx, 20000, 4000, seed=ctx.seed + 57 * i, tag="-p%d" % i)
+        ctx.fails.extend(by_class_round_robin(pure_fails))
         seeds = [ctx.seed + 100 * i for i in range(8 if quick else 12)]
         fails = fold_runs(ctx, seeds, 150 if quick else 1500)
         ctx.fails.extend(fails)
@@ -355,7 +421,15 @@ def run(ctx):
         "^x / +x / x-) per program, items 0/1 an adversarial pair for the identity of constants (one digit string read in "
         "two of the bases 2/8/10/16 at lengths around the 32/64/128-bit sizing boundaries, equal low 32/64 bits, same value "
         "at another width/signedness, -k vs 2^N-k, value = the other one's printed digits, same twice, random), 3 input "
-        "vectors; mode ident: the same pairs through the real Generator.Constant, both orders; distinct = distinct "
+        "vectors; mode ident: the same pairs through the real Generator.Constant, both orders; mode mpa: one call on fresh "
+        "operands, receiver and both operands observed after it; mode mpah: histories of 1..5 calls on 2..3 (+ fresh "
+        "receivers) shared objects, first step = every method x {z fresh, z fresh & x==y, z==x, z==y, z==x==y, z another "
+        "object} x {operands sized as the compiler sizes literals for a type of 65..130 bits incl. values fitting 32/64 "
+        "bits, small receivers, anything}, later steps random with the first step's operands reused, every object observed "
+        "after every call; mode uses: 2..3 declarations (:= or package-level const) of one type (widths 8,31..33,63..66,100,"
+        "127,128,130 + random; values fitting 32/64 bits in any type, full width, patterns), 2..4 folds whose operands are "
+        "declarations or earlier results (first fold = every operator on v0, v1, also swapped and v0 op v0), every variable "
+        "used with its own run-time input, shared / fresh-literal / run-time variants, 3 input vectors; distinct = distinct "
         "case keys / op lines")
     ctx.assumptions += [
         "the builders of compiler/circuits are taken at their arithmetic meaning (C07); Model/Mpa.lean's large path and "
@@ -363,6 +437,9 @@ def run(ctx):
         "operand forms are T(v), T(-v) and -T(v); constants reached through const declarations and untyped-typed mixes "
         "are not generated (constants bound by := are, mode multi); the registration order of the constants of a multi "
         "program (first instance of a name wins) is modelled for the two generated program shapes only",
+        "operand purity is observed through the exported mpa API (TypeSize, String, Text, BitLen, Int64, Sign, Bit 0..135) "
+        "and, at program level, through the outputs of programs whose constants are bound by := / const; constants reached "
+        "through struct fields, arrays or function arguments are not generated",
         "the naming function of Generator.Constant is tied to the model's decimal naming by the equality pattern of the "
         "Names on generated pairs (ident lines) and by the multi lines, not by comparing the Name text",
         "theorems cover every width; above 64 bits they are about the large path modelled at the level result = (x op y) "
@@ -378,6 +455,9 @@ def run(ctx):
         "exactly; known findings match (signature, cause, model_predicts=true) only. Programs of several constant "
         "expressions (mode multi) are compared output by output with the run-time variant; a difference that the item "
         "does not show when compiled alone is reported (cause from the model's constant table). The real "
-        "Generator.Constant is probed for two constants of one Name with different bits. Tie: exported mpa API vs Model/Mpa.lean; "
+        "Generator.Constant is probed for two constants of one Name with different bits. Operand purity: after every mpa call "
+        "(single calls and histories sharing operand objects, every aliasing pattern) every object that is not the receiver "
+        "must be observed unchanged; programs in which one constant is used by several folds and run-time uses are compared "
+        "output by output with the run-time variant, a difference the fresh-literal variant does not show is reported. Tie: exported mpa API vs Model/Mpa.lean; "
         "folded constant (type, Bits, MinBits, mpa size, value), `return c` result and run-time circuit result vs "
         "Model/Fold.lean, line by line.")
